@@ -777,6 +777,22 @@ def rule_returns_always(run):
             def result(self):
                 return True   # `while True:`
 
+            # a test expression is a statement as well: nothing in it returns / breaks / continues
+            def return_paths(self):
+                return []
+
+            def returns(self):
+                return False
+
+            def returns_always(self):
+                return False
+
+            def contains_break(self):
+                return False
+
+            def contains_continue(self):
+                return False
+
         try:
             if args == "loop":
                 Interp(om, {"super": _mk0, "__setattr__": lambda o, k, v: setattr(o, k, v)}).call_function(f"{cname}.__init__", so, _Test(), _Blk(True))
